@@ -145,6 +145,9 @@ func registerNatives(e *Engine) {
 			}
 		case *Term:
 			x.noSpec("assume")
+			if len(x.injective) > 0 {
+				x.flushInjectivity()
+			}
 			if v, ok := x.evalModel(c); ok && v != 0 {
 				x.addPC(c)
 				return nil
